@@ -227,6 +227,32 @@ type c18Resolver struct {
 
 var errC18Lookup = errors.New("verif: scripted lookup failure")
 
+// c18LookupFailure: the shapes a failing net.Resolver.LookupAddr really returns — a *net.DNSError saying
+// "no such host" (NXDOMAIN: the address has no PTR record), a time-out, a temporary server failure, the
+// same wrapped once more, a transport error — next to a plain error. Every one of them is a failed lookup.
+func c18LookupFailure(text string, idx int) error {
+	h := idx * 7
+	for _, ch := range text {
+		h = h*31 + int(ch)
+	}
+	if h < 0 {
+		h = -h
+	}
+	switch h % 7 {
+	case 0:
+		return &net.DNSError{Err: "no such host", Name: text, IsNotFound: true}
+	case 1:
+		return &net.DNSError{Err: "i/o timeout", Name: text, IsTimeout: true}
+	case 2:
+		return &net.DNSError{Err: "server misbehaving", Name: text, Server: "192.0.2.53:53", IsTemporary: true}
+	case 3:
+		return fmt.Errorf("lookup %s: %w", text, &net.DNSError{Err: "no such host", Name: text, IsNotFound: true})
+	case 4:
+		return &net.OpError{Op: "read", Net: "udp", Err: errC18Lookup}
+	}
+	return errC18Lookup
+}
+
 func (r *c18Resolver) lookup(ctx context.Context, text string) ([]string, error) {
 	r.mu.Lock()
 	idx := r.counts[text]
@@ -264,7 +290,7 @@ func (r *c18Resolver) lookup(ctx context.Context, text string) ([]string, error)
 		names = []string{}
 		tok = "-"
 	default:
-		err = errC18Lookup
+		err = c18LookupFailure(text, idx)
 	}
 	r.mu.Lock()
 	r.log = append(r.log, c18CallObs{Text: text, Idx: idx, Tok: tok, Done: time.Since(r.start)})
